@@ -154,7 +154,6 @@ package util
 //@   loop 3 invariant [other-string-lists-untouched] forall l []string, i int :: !fresh(l) ==> l[i] == old(l[i])
 //@   loop 3 invariant [frame] result != nil && file.entries == old(file.entries) && file.entries != nil && (forall k string :: has(file.entries, k) == old(has(file.entries, k)) && file.entries[k] == old(file.entries[k]))
 
-
 // ---- C08: the kind sorters order manifests and hooks by kindBefore (the fixed table order, unknown
 // kinds last and alphabetical); the sort is stable (assumed contract of sort.SliceStable), the lists
 // keep their length
